@@ -1,0 +1,30 @@
+//go:build verif
+// +build verif
+
+// Verification hook for C12 (build tag "verif"): the time range that the real
+// expandTimeRange / assemble compute for a list of instants.  Add-only; calls
+// the unexported code unchanged.
+
+package cmd
+
+import (
+	"context"
+	"io/ioutil"
+)
+
+// VerifAssembleRange feeds the instants (seconds) through the real
+// app.expandTimeRange, calls the real assemble with no error and returns the
+// MinTime / MaxTime of the result.  Must run inside VerifLogScope.
+func VerifAssembleRange(instants []float64) (min, max float64) {
+	ctx := context.Background()
+	cfg := newConfig()
+	cfg.narration = ioutil.Discard
+	cfg.avoidTimeProgress = true
+	ap := newApp(ctx, cfg)
+	defer ap.close()
+	for _, t := range instants {
+		ap.expandTimeRange(t)
+	}
+	r := ap.assemble(ctx, nil)
+	return r.MinTime, r.MaxTime
+}
